@@ -297,6 +297,8 @@ func (g *rnsGen) next() (sdk.Msg, map[string]interface{}) {
 			creator, nm, ln = b.Bidder, b.Name, lowerName(b.Name)
 			if pc, err := sdk.ParseCoinNormalized(b.Price); err == nil && r.Intn(2) == 0 {
 				price = pc
+			} else if r.Intn(4) == 0 {
+				price = sdk.Coin{Denom: "ujkl", Amount: sdk.ZeroInt()} // replaced by an empty bid
 			}
 		}
 		return &rnstypes.MsgBid{Creator: creator, Name: nm, Bid: price},
